@@ -38,6 +38,10 @@
 (*   NoRecompute  a run that follows a completed run performs no Compute   *)
 (*   Terminates   every run that is not crashed ends (liveness, cfg _live) *)
 (*   FinalWhole   (lemma, temp design) a final path is never partial       *)
+(*   Injective    distinct keys have distinct stored entries; the wrong     *)
+(*                instance LossyNames = TRUE (siblings share a file) is    *)
+(*                refuted through RightResults: the second sibling gets    *)
+(*                the first one's result (cfg _lossy)                      *)
 (*   RightResults every completed run returns the current function's      *)
 (*                results -- also in-process histories Run, Rerun,         *)
 (*                [Mutate the returned objects, Rerun,] ClearCache (cache  *)
@@ -60,6 +64,8 @@ CONSTANTS
     Design,     \* "direct" | "temp" | "any" (any: chosen in Init)
     Policy,     \* "trust" | "validate" | "any"
     RenameAt,   \* "closed" (contract) | "written" (rename before close: wrong order)
+    LossyNames, \* TRUE: implementation-shaped wrong instance -- the file name forgets what distinguishes the
+                \*       "sibling" keys 1 and 2 (they differ only in characters a lossy name function drops)
     Memo,       \* TRUE: implementation-shaped wrong instance -- a process-wide memo keyed by the file path
                 \*       answers repeated loads (must be refuted); FALSE: a hit returns what is on disk
     MaxClear,   \* how often the caller may delete the cache directory and change the mapped function
@@ -69,6 +75,11 @@ CONSTANTS
     EmitOn      \* TRUE: record crash snapshots and print them
 
 Keys    == 1..NKeys
+\* the stored entry (file name) of a key; keys 1 and 2 are siblings: distinct keys whose texts differ only in
+\* punctuation / sign.  Contract: identity (injective).
+Nm(k)   == IF LossyNames /\ k = 2 THEN 1 ELSE k
+\* the result of key k under version f of the mapped function (distinct per key and version)
+Val(f, k) == 10 * f + k
 Workers == 1..W
 Absent  == 0 - 1
 IdlePc  == [k |-> 0, at |-> "idle", b |-> 0, mv |-> FALSE, v |-> 0]
@@ -131,17 +142,17 @@ Take(w, k) ==
 \* file.exists()
 Lookup(w) ==
     /\ At(w, "taken")
-    /\ Goto(w, IF fin[pc[w].k] # Absent THEN "hit" ELSE "miss")
+    /\ Goto(w, IF fin[Nm(pc[w].k)] # Absent THEN "hit" ELSE "miss")
     /\ fresh' = FALSE
     /\ UNCHANGED <<conf, mem, files, taken, res, computed, status, verify, crashes, snaps>>
 
 LoadOk(w) ==
     /\ At(w, "hit")
-    /\ fin[pc[w].k] = L
+    /\ fin[Nm(pc[w].k)] = L
     /\ LET k == pc[w].k
-           val == IF Memo /\ memo[k] # 0 THEN memo[k] ELSE fv[k]      \* contract: what is on disk
+           val == IF Memo /\ memo[Nm(k)] # 0 THEN memo[Nm(k)] ELSE fv[Nm(k)]      \* contract: what is on disk
        IN /\ res' = [res EXCEPT ![k] = val]
-          /\ memo' = IF Memo THEN [memo EXCEPT ![k] = val] ELSE memo
+          /\ memo' = IF Memo THEN [memo EXCEPT ![Nm(k)] = val] ELSE memo
     /\ pc' = [pc EXCEPT ![w] = IdlePc]
     /\ fresh' = FALSE
     /\ UNCHANGED <<conf, fn, fv, clears, extra, ops, files, taken, computed, status, verify, crashes, snaps>>
@@ -149,7 +160,7 @@ LoadOk(w) ==
 \* loading a file that is not whole fails; what that means is the policy
 LoadBad(w) ==
     /\ At(w, "hit")
-    /\ fin[pc[w].k] # L
+    /\ fin[Nm(pc[w].k)] # L
     /\ IF policy = "trust"
           THEN status' = "raised" /\ pc' = pc
           ELSE status' = status /\ Goto(w, "miss")
@@ -158,7 +169,7 @@ LoadBad(w) ==
 
 Compute(w) ==
     /\ At(w, "miss")
-    /\ pc' = [pc EXCEPT ![w].at = "computed", ![w].v = fn]
+    /\ pc' = [pc EXCEPT ![w].at = "computed", ![w].v = Val(fn, pc[w].k)]
     /\ computed' = computed \cup {pc[w].k}
     /\ fresh' = FALSE
     /\ UNCHANGED <<conf, mem, files, taken, res, status, verify, crashes, snaps>>
@@ -168,17 +179,17 @@ Open(w) ==
     /\ At(w, "computed")
     /\ pc' = [pc EXCEPT ![w].at = "writing", ![w].b = 0]
     /\ IF design = "direct"
-          THEN fin' = [fin EXCEPT ![pc[w].k] = 0] /\ tmp' = tmp
-          ELSE tmp' = [tmp EXCEPT ![pc[w].k] = 0] /\ fin' = fin
+          THEN fin' = [fin EXCEPT ![Nm(pc[w].k)] = 0] /\ tmp' = tmp
+          ELSE tmp' = [tmp EXCEPT ![Nm(pc[w].k)] = 0] /\ fin' = fin
     /\ fresh' = FALSE
     /\ UNCHANGED <<conf, mem, taken, res, computed, status, verify, crashes, snaps>>
 
 \* the file the open handle of worker w writes into
 IntoFinal(w) == design = "direct" \/ pc[w].mv
-Content(w) == IF IntoFinal(w) THEN fin[pc[w].k] ELSE tmp[pc[w].k]
+Content(w) == IF IntoFinal(w) THEN fin[Nm(pc[w].k)] ELSE tmp[Nm(pc[w].k)]
 SetContent(w, c) ==
-    IF IntoFinal(w) THEN fin' = [fin EXCEPT ![pc[w].k] = c] /\ tmp' = tmp
-                    ELSE tmp' = [tmp EXCEPT ![pc[w].k] = c] /\ fin' = fin
+    IF IntoFinal(w) THEN fin' = [fin EXCEPT ![Nm(pc[w].k)] = c] /\ tmp' = tmp
+                    ELSE tmp' = [tmp EXCEPT ![Nm(pc[w].k)] = c] /\ fin' = fin
 
 \* write(): the chunk goes into the buffer of the file object
 Write(w) ==
@@ -193,7 +204,7 @@ Flush(w) ==
     /\ At(w, "writing")
     /\ Content(w) < pc[w].b
     /\ SetContent(w, Content(w) + 1)
-    /\ fv' = IF IntoFinal(w) THEN [fv EXCEPT ![pc[w].k] = pc[w].v] ELSE fv   \* whose result the final path is getting
+    /\ fv' = IF IntoFinal(w) THEN [fv EXCEPT ![Nm(pc[w].k)] = pc[w].v] ELSE fv   \* whose result the final path is getting
     /\ fresh' = FALSE
     /\ UNCHANGED <<conf, fn, memo, clears, extra, ops, pc, taken, res, computed, status, verify, crashes, snaps>>
 
@@ -203,7 +214,7 @@ Close(w) ==
     /\ pc[w].b = L
     /\ (RenameAt = "written" /\ design = "temp") => pc[w].mv     \* the wrong order always renames first
     /\ SetContent(w, L)
-    /\ fv' = IF IntoFinal(w) THEN [fv EXCEPT ![pc[w].k] = pc[w].v] ELSE fv
+    /\ fv' = IF IntoFinal(w) THEN [fv EXCEPT ![Nm(pc[w].k)] = pc[w].v] ELSE fv
     /\ Goto(w, IF IntoFinal(w) THEN "saved" ELSE "closed")
     /\ fresh' = FALSE
     /\ UNCHANGED <<conf, fn, memo, clears, extra, ops, taken, res, computed, status, verify, crashes, snaps>>
@@ -212,10 +223,10 @@ Close(w) ==
 RenameEarly(w) ==
     /\ RenameAt = "written" /\ design = "temp"
     /\ At(w, "writing") /\ pc[w].b = L /\ ~pc[w].mv
-    /\ fin' = [fin EXCEPT ![pc[w].k] = tmp[pc[w].k]]
-    /\ tmp' = [tmp EXCEPT ![pc[w].k] = Absent]
+    /\ fin' = [fin EXCEPT ![Nm(pc[w].k)] = tmp[Nm(pc[w].k)]]
+    /\ tmp' = [tmp EXCEPT ![Nm(pc[w].k)] = Absent]
     /\ pc' = [pc EXCEPT ![w].mv = TRUE]
-    /\ fv' = [fv EXCEPT ![pc[w].k] = pc[w].v]
+    /\ fv' = [fv EXCEPT ![Nm(pc[w].k)] = pc[w].v]
     /\ fresh' = FALSE
     /\ UNCHANGED <<conf, fn, memo, clears, extra, ops, taken, res, computed, status, verify, crashes, snaps>>
 
@@ -223,9 +234,9 @@ RenameEarly(w) ==
 Rename(w) ==
     /\ RenameAt = "closed"
     /\ At(w, "closed")
-    /\ fin' = [fin EXCEPT ![pc[w].k] = tmp[pc[w].k]]
-    /\ tmp' = [tmp EXCEPT ![pc[w].k] = Absent]
-    /\ fv' = [fv EXCEPT ![pc[w].k] = pc[w].v]
+    /\ fin' = [fin EXCEPT ![Nm(pc[w].k)] = tmp[Nm(pc[w].k)]]
+    /\ tmp' = [tmp EXCEPT ![Nm(pc[w].k)] = Absent]
+    /\ fv' = [fv EXCEPT ![Nm(pc[w].k)] = pc[w].v]
     /\ Goto(w, "saved")
     /\ fresh' = FALSE
     /\ UNCHANGED <<conf, fn, memo, clears, extra, ops, taken, res, computed, status, verify, crashes, snaps>>
@@ -327,7 +338,9 @@ TypeOK ==
 
 NoRaise == status # "raised"
 \* every completed run returns the results of the function the caller uses NOW: a hit returns what is on disk
-RightResults == status \in {"done", "end"} => \A k \in Keys : res[k] = fn
+RightResults == status \in {"done", "end"} => \A k \in Keys : res[k] = Val(fn, k)
+\* the key -> stored-entry map is injective: two distinct keys never read or overwrite each other's entry
+Injective == \A a, b \in Keys : a # b => Nm(a) # Nm(b)
 NoRecompute == verify => computed = {}
 FinalWhole == design = "temp" => \A k \in Keys : fin[k] \in {Absent, L}
 \* two workers never hold the same key
